@@ -5,7 +5,7 @@ usage: eval_mutants.py [--only C05-m1,...] [--checks C05,C01] [--tier quick]
 Works in a scratch git worktree of /repo (never in /repo itself); results -> seeded/<id>/meta.json"""
 import argparse, json, os, re, shutil, subprocess, sys, time
 V = os.path.dirname(os.path.dirname(os.path.abspath(__file__)))
-WT = "/var/tmp/mutwt"
+WT = os.environ.get("MUTWT", "/var/tmp/mutwt")   # several evaluations may run side by side with different MUTWT
 INC = subprocess.check_output(["/venv/bin/python", "-c", "import sysconfig;print(sysconfig.get_paths()['include'])"]).decode().strip()
 EXT = subprocess.check_output(["/venv/bin/python", "-c", "import sysconfig;print(sysconfig.get_config_var('EXT_SUFFIX'))"]).decode().strip()
 
@@ -78,7 +78,7 @@ def main():
         res = meta.setdefault("checks", {})
         for c in checks:
             t = time.time()
-            rcc, oc = sh("./check %s --tier %s --no-evidence" % (c, a.tier), cwd=V, env={"YARL_REPO": WT}, timeout=7200)
+            rcc, oc = sh("./check %s --tier %s --no-evidence%s" % (c, a.tier, (" --budget " + os.environ["MUT_BUDGET"]) if os.environ.get("MUT_BUDGET") else ""), cwd=V, env={"YARL_REPO": WT}, timeout=7200)
             lines = [l for l in oc.splitlines() if l.startswith(("VIOLATION", "  family", "INCONCLUSIVE", "OK ", "KNOWN"))]
             res["%s/%s" % (c, a.tier)] = dict(exit=rcc, wall_s=round(time.time() - t), head=[l[:300] for l in lines[:4]])
             print(mid, c, a.tier, "exit", rcc, (lines[:2] or [""])[0][:160])
